@@ -294,6 +294,10 @@ class Completion:
                 if dot is None:
                     # The cursor is in whitespace or a comment behind the dot.
                     dot = leaf.get_previous_leaf()
+                elif dot.start_pos >= self._position \
+                        and dot.type not in ('newline', 'endmarker'):
+                    # The cursor is in front of that leaf, e.g. `foo. .`
+                    dot = dot.get_previous_leaf()
                 if dot.type == "newline":
                     dot = dot.get_previous_leaf()
                 if dot.type == "endmarker":
